@@ -96,7 +96,7 @@ def build(ctx):
     plan += [("20", mode, True) for mode in modes]
     for std, mode, ce in plan:
         if True:
-            u = ctx.lower("c14ce" if ce else "c14", cpp(ns), std=std, mode=mode, extra=("-DSBEPP_VERIF_CONSTANT_EVALUATED",) if ce else ())
+            u = ctx.lower("c14ce" if ce else "c14", cpp(ns), std=std, mode=mode, extra=hgen.CE_FLAGS if ce else ())
             for n in ns:
                 hs.append(P.Harness("arr%d_%s_cxx%s%s" % (n, mode, std, "_consteval" if ce else ""), harness(u, n, mode == "checked"), [u], unwind=n + 3,
                                     desc="static_array_ref<char,char,%d>: assign_string(cstr|range, none/single/all), assign_range, assign(it,it), assign(ilist), fill, assign(count,v), strlen, strlen_r vs. spec; guards on both sides" % n,
